@@ -87,6 +87,8 @@ func init() {
 		"(*sync.WaitGroup).Wait":   noEffect,
 		"strings.Compare":          effStringsCompare,
 		"strings.Index":            effStringsIndex,
+		"strings.Split":            effStringsSplit,
+		"strings.LastIndex":        effStringsIndex,
 		"strings.HasPrefix":        ufEffect("strings.HasPrefix", sBool),
 		"strings.ToLower":          ufEffect("strings.ToLower", sStr),
 		"strings.TrimSpace":        ufEffect("strings.TrimSpace", sStr),
@@ -130,6 +132,29 @@ func init() {
 		"(*time.Timer).Reset": effTimerSet(true),
 		"time.AfterFunc":      effAfterFunc,
 		"sort.Sort":           effSortSort,
+		// HTTP response writer: ghost status (first WriteHeader wins; a Write without one means 200)
+		"net/http.ResponseWriter.WriteHeader": effWriteHeader,
+		"net/http.ResponseWriter.Write":       effRespWrite,
+		"net/http.ResponseWriter.Header":      effRespHeader,
+		"(net/http.Header).Set":               effHeaderSet,
+		"(net/http.Header).Add":               effHeaderSet,
+		"(net/http.Header).Get":               effHeaderGet,
+		"(net/http.Header).Values":            noEffect,
+		"(*net/url.URL).Query":                effURLQuery,
+		"(net/url.Values).Get":                effValuesGet,
+		"(*encoding/json.Encoder).Encode":     effJSONEncode,
+		"(*encoding/json.Decoder).Decode":     effJSONDecode,
+		"encoding/json.NewEncoder":            effNewEncoder,
+		"encoding/json.Marshal":               effJSONMarshal,
+		"io.Copy":                             effIOCopy,
+		"io.ReadAll":                          effIOReadAll,
+		"net/http.ServeContent":               effServeContent,
+		"net/url.JoinPath":                    effFaultOnErr("url.JoinPath", sStr),
+		"(*net/url.URL).JoinPath":             effFreshNonNil,
+		"(*net/url.URL).String":               ufFreshStr,
+		"(net/url.Values).Set":                noEffect,
+		"(net/url.Values).Encode":             ufFreshStr,
+		"(*net/http.Request).Context":         noEffect,
 	}
 }
 
@@ -248,6 +273,16 @@ func effSortStrings(fe *FnEnc, st *State, callee *ssa.Function, args []RV, pos t
 // havocPointees: an external call may write through pointer arguments to memory the contracts can see
 func (fe *FnEnc) havocPointees(st *State, callee *ssa.Function, args []RV, argVals []ssa.Value) {
 	for i, a := range argVals {
+		if mi, isMI := a.(*ssa.MakeInterface); isMI {
+			// a pointer passed as `any` (json.Unmarshal(raw, &m), fmt.Sscan, ...)
+			if _, isPtr := mi.X.Type().Underlying().(*types.Pointer); isPtr {
+				el := mi.X.Type().Underlying().(*types.Pointer).Elem()
+				if n, ok := derefNamed(el); !(ok && n.Obj().Pkg() != nil && !inScopePkg(n.Obj().Pkg().Path()) && structOf(el) != nil) {
+					fe.havocPointee(st, fe.get(st, mi.X), mi.X.Type())
+				}
+			}
+			continue
+		}
 		pt, ok := a.Type().Underlying().(*types.Pointer)
 		if !ok {
 			continue
@@ -383,5 +418,235 @@ func effErrorsJoin(fe *FnEnc, st *State, callee *ssa.Function, args []RV, pos to
 	fe.emit(fmt.Sprintf("(assert (= (= %s (mkIface 0 0)) (forall ((p Int)) (! (=> (and (<= %s p) (< p (+ %s %s))) (= (select %s p) (mkIface 0 0))) :pattern ((select %s p))))))",
 		r.S, slOff(s).S, slOff(s).S, slLen(s).S, row.S, row.S))
 	fe.emit("(assert (=> (= " + ifTyp(r).S + " 0) (= " + ifVal(r).S + " 0)))")
+	return one(r)
+}
+
+const respStatus = "M.ResponseWriter.status"
+
+func respKey(fe *FnEnc, w RV) Term { return ifVal(fe.val(w)) }
+
+func effWriteHeader(fe *FnEnc, st *State, callee *ssa.Function, args []RV, pos token.Pos) []RV {
+	srt := arrSort(sInt, sInt)
+	h := fe.getComp(st, respStatus, srt)
+	k := respKey(fe, args[0])
+	cur := tSel(h, k)
+	fe.setComp(st, respStatus, srt, tStore(h, k, tIte(tEq(cur, tInt(0)), fe.val(args[1]), cur)))
+	return nil
+}
+
+func effRespWrite(fe *FnEnc, st *State, callee *ssa.Function, args []RV, pos token.Pos) []RV {
+	srt := arrSort(sInt, sInt)
+	h := fe.getComp(st, respStatus, srt)
+	k := respKey(fe, args[0])
+	cur := tSel(h, k)
+	fe.setComp(st, respStatus, srt, tStore(h, k, tIte(tEq(cur, tInt(0)), tInt(200), cur)))
+	return nil
+}
+
+// the header map of a response writer is a ghost object: one per writer, values by canonical key
+func effRespHeader(fe *FnEnc, st *State, callee *ssa.Function, args []RV, pos token.Pos) []RV {
+	fe.declFun("resp.hdr", []string{sInt}, sInt)
+	r := Term{app("resp.hdr", respKey(fe, args[0])), sInt}
+	if !fe.dry {
+		fe.emit("(assert (not (= " + r.S + " 0)))")
+	}
+	return one(r)
+}
+
+const hdrVals = "HDR"
+
+func canonKey(fe *FnEnc, k Term) Term {
+	fe.declFun("hdr.canon", []string{sStr}, sStr)
+	return Term{app("hdr.canon", k), sStr}
+}
+
+func effHeaderSet(fe *FnEnc, st *State, callee *ssa.Function, args []RV, pos token.Pos) []RV {
+	srt := arrSort(sInt, arrSort(sStr, sStr))
+	h := fe.getComp(st, hdrVals, srt)
+	m := fe.val(args[0])
+	fe.setComp(st, hdrVals, srt, tStore(h, m, tStore(tSel(h, m), canonKey(fe, fe.val(args[1])), fe.val(args[2]))))
+	return nil
+}
+
+func effHeaderGet(fe *FnEnc, st *State, callee *ssa.Function, args []RV, pos token.Pos) []RV {
+	srt := arrSort(sInt, arrSort(sStr, sStr))
+	h := fe.getComp(st, hdrVals, srt)
+	return one(tSel(tSel(h, fe.val(args[0])), canonKey(fe, fe.val(args[1]))))
+}
+
+// URL query: a function of the URL's current RawQuery
+func effURLQuery(fe *FnEnc, st *State, callee *ssa.Function, args []RV, pos token.Pos) []RV {
+	u := fe.val(args[0])
+	var raw Term
+	if n, ok := derefNamed(callee.Signature.Recv().Type()); ok {
+		stt := structOf(n)
+		for i := 0; i < stt.NumFields(); i++ {
+			if stt.Field(i).Name() == "RawQuery" {
+				raw = fe.loadField(st, n, i, u, false)
+			}
+		}
+	}
+	fe.declFun("url.parseQuery", []string{sStr}, sInt)
+	r := Term{app("url.parseQuery", raw), sInt}
+	if !fe.dry {
+		fe.emit("(assert (> " + r.S + " 0))")
+	}
+	return one(r)
+}
+
+func effValuesGet(fe *FnEnc, st *State, callee *ssa.Function, args []RV, pos token.Pos) []RV {
+	fe.declFun("url.valuesGet", []string{sInt, sStr}, sStr)
+	return one(Term{app("url.valuesGet", fe.val(args[0]), fe.val(args[1])), sStr})
+}
+
+// json.NewEncoder(w): remember which writer the encoder writes to (ghost)
+func effNewEncoder(fe *FnEnc, st *State, callee *ssa.Function, args []RV, pos token.Pos) []RV {
+	r := fe.newRef(st)
+	srt := arrSort(sInt, sIface)
+	h := fe.getComp(st, "M.Encoder.w", srt)
+	fe.setComp(st, "M.Encoder.w", srt, tStore(h, r, fe.val(args[0])))
+	return one(r)
+}
+
+// Encode writes to the encoder's writer: for a response writer that is an implicit 200 when no status was set
+func effJSONEncode(fe *FnEnc, st *State, callee *ssa.Function, args []RV, pos token.Pos) []RV {
+	srt := arrSort(sInt, sIface)
+	h := fe.getComp(st, "M.Encoder.w", srt)
+	w := tSel(h, fe.val(args[0]))
+	ssrt := arrSort(sInt, sInt)
+	sh := fe.getComp(st, respStatus, ssrt)
+	k := ifVal(w)
+	cur := tSel(sh, k)
+	fe.setComp(st, respStatus, ssrt, tStore(sh, k, tIte(tEq(cur, tInt(0)), tInt(200), cur)))
+	return nil
+}
+
+// json.Marshal: fresh bytes; a failure is an internal error, not something the client caused (ghost fault flag)
+func effJSONMarshal(fe *FnEnc, st *State, callee *ssa.Function, args []RV, pos token.Pos) []RV {
+	fe.havocComp(st, "alloc", sInt)
+	if fe.dry {
+		fe.setComp(st, "fault", sBool, fe.getComp(st, "fault", sBool))
+		return []RV{{T: nilSlice, Valid: true}, {T: nilIface, Valid: true}}
+	}
+	b := fe.fresh("json.bytes", sSlice)
+	fe.emit("(assert " + fe.wf(types.NewSlice(types.Typ[types.Byte]), b, fe.alloc(st), 0).S + ")")
+	err := fe.fresh("json.err", sIface)
+	fe.emit("(assert (=> (= (i_typ " + err.S + ") 0) (= (i_val " + err.S + ") 0)))")
+	f := fe.getComp(st, "fault", sBool)
+	fe.setComp(st, "fault", sBool, tOr(f, tNot(tEq(err, nilIface))))
+	return []RV{{T: b, Valid: true}, {T: err, Valid: true}}
+}
+
+const bcWritten = "M.BlobCreator.written"
+
+// io.Copy(dst, src): when dst is an upload session this is its Write (ghost call counter); a failure is a fault
+// (errors while reading the request body are not modelled as client errors)
+func effIOCopy(fe *FnEnc, st *State, callee *ssa.Function, args []RV, pos token.Pos) []RV {
+	srt := arrSort(sInt, sInt)
+	h := fe.getComp(st, bcWritten, srt)
+	k := ifVal(fe.val(args[0]))
+	fe.setComp(st, bcWritten, srt, tStore(h, k, tArith("+", tSel(h, k), tInt(1))))
+	f := fe.getComp(st, "fault", sBool)
+	if fe.dry {
+		fe.setComp(st, "fault", sBool, f)
+		return []RV{{T: tInt(0), Valid: true}, {T: nilIface, Valid: true}}
+	}
+	n := fe.fresh("copy.n", sInt)
+	fe.emit("(assert (>= " + n.S + " 0))")
+	err := fe.fresh("copy.err", sIface)
+	fe.emit("(assert (=> (= (i_typ " + err.S + ") 0) (= (i_val " + err.S + ") 0)))")
+	fe.setComp(st, "fault", sBool, tOr(f, tNot(tEq(err, nilIface))))
+	return []RV{{T: n, Valid: true}, {T: err, Valid: true}}
+}
+
+func effIOReadAll(fe *FnEnc, st *State, callee *ssa.Function, args []RV, pos token.Pos) []RV {
+	fe.havocComp(st, "alloc", sInt)
+	f := fe.getComp(st, "fault", sBool)
+	if fe.dry {
+		fe.setComp(st, "fault", sBool, f)
+		return []RV{{T: nilSlice, Valid: true}, {T: nilIface, Valid: true}}
+	}
+	b := fe.fresh("readall", sSlice)
+	fe.emit("(assert " + fe.wf(types.NewSlice(types.Typ[types.Byte]), b, fe.alloc(st), 0).S + ")")
+	err := fe.fresh("readall.err", sIface)
+	fe.emit("(assert (=> (= (i_typ " + err.S + ") 0) (= (i_val " + err.S + ") 0)))")
+	fe.setComp(st, "fault", sBool, tOr(f, tNot(tEq(err, nilIface))))
+	return []RV{{T: b, Valid: true}, {T: err, Valid: true}}
+}
+
+// http.ServeContent answers 200, 206, 304, 412 or 416 (assumed; range handling is the standard library's)
+func effServeContent(fe *FnEnc, st *State, callee *ssa.Function, args []RV, pos token.Pos) []RV {
+	srt := arrSort(sInt, sInt)
+	h := fe.getComp(st, respStatus, srt)
+	k := respKey(fe, args[0])
+	cur := tSel(h, k)
+	if fe.dry {
+		fe.setComp(st, respStatus, srt, h)
+		return nil
+	}
+	sc := fe.fresh("servecontent.status", sInt)
+	fe.emit(fmt.Sprintf("(assert (or (= %s 200) (= %s 206) (= %s 304) (= %s 412) (= %s 416)))", sc.S, sc.S, sc.S, sc.S, sc.S))
+	fe.setComp(st, respStatus, srt, tStore(h, k, tIte(tEq(cur, tInt(0)), sc, cur)))
+	return nil
+}
+
+// a library call whose failure is an internal error (ghost fault), never caused by the request
+func effFaultOnErr(name string, ret string) effectFn {
+	return func(fe *FnEnc, st *State, callee *ssa.Function, args []RV, pos token.Pos) []RV {
+		f := fe.getComp(st, "fault", sBool)
+		if fe.dry {
+			fe.setComp(st, "fault", sBool, f)
+			return []RV{{T: zeroOfSort(ret), Valid: true}, {T: nilIface, Valid: true}}
+		}
+		v := fe.fresh(name, ret)
+		err := fe.fresh(name+".err", sIface)
+		fe.emit("(assert (=> (= (i_typ " + err.S + ") 0) (= (i_val " + err.S + ") 0)))")
+		fe.setComp(st, "fault", sBool, tOr(f, tNot(tEq(err, nilIface))))
+		return []RV{{T: v, Valid: true}, {T: err, Valid: true}}
+	}
+}
+
+// (*json.Decoder).Decode(&v): in this code base decoders only read stored blobs, so a failure is a storage fault;
+// the target is overwritten with unconstrained, well-formed content
+func effJSONDecode(fe *FnEnc, st *State, callee *ssa.Function, args []RV, pos token.Pos) []RV {
+	fe.havocComp(st, "alloc", sInt)
+	if mi, ok := fe.curCallArgs[1].(*ssa.MakeInterface); ok {
+		if _, isPtr := mi.X.Type().Underlying().(*types.Pointer); isPtr {
+			fe.havocPointee(st, fe.get(st, mi.X), mi.X.Type())
+		}
+	}
+	f := fe.getComp(st, "fault", sBool)
+	if fe.dry {
+		fe.setComp(st, "fault", sBool, f)
+		return one(nilIface)
+	}
+	err := fe.fresh("decode.err", sIface)
+	fe.emit("(assert (=> (= (i_typ " + err.S + ") 0) (= (i_val " + err.S + ") 0)))")
+	fe.setComp(st, "fault", sBool, tOr(f, tNot(tEq(err, nilIface))))
+	return one(err)
+}
+
+func effFreshNonNil(fe *FnEnc, st *State, callee *ssa.Function, args []RV, pos token.Pos) []RV {
+	r := fe.newRef(st)
+	// the object is new: its fields are unconstrained
+	return one(r)
+}
+
+func ufFreshStr(fe *FnEnc, st *State, callee *ssa.Function, args []RV, pos token.Pos) []RV {
+	if fe.dry {
+		return one(Term{"str.empty", sStr})
+	}
+	return one(fe.fresh("ext.str", sStr))
+}
+
+// strings.Split with a non-empty separator returns at least one element
+func effStringsSplit(fe *FnEnc, st *State, callee *ssa.Function, args []RV, pos token.Pos) []RV {
+	fe.havocComp(st, "alloc", sInt)
+	if fe.dry {
+		return one(nilSlice)
+	}
+	r := fe.fresh("split", sSlice)
+	fe.emit("(assert " + fe.wf(types.NewSlice(types.Typ[types.String]), r, fe.alloc(st), 0).S + ")")
+	fe.emit("(assert (>= (s_len " + r.S + ") 1))")
 	return one(r)
 }
